@@ -452,7 +452,7 @@ class ExcelParser(ExcelParserTokens):
                     token = ""
                 tokens.add("", self.TOK_TYPE_WSPACE)
                 offset += 1
-                while ((currentChar() in (" ", "\n")) and (not EOF())):
+                while ((not EOF()) and (currentChar() in (" ", "\n"))):
                     offset += 1
                 continue
 
